@@ -353,6 +353,106 @@ def r01_6(run, model):
                    "vec_get(a, 3) prints 20: both appends write slot 3 of v3's array (len 3, cap 4)")
 
 
+# (function, variant, field) whose child is stored without passing through the traversal, with the reason
+RECUR_LEDGER = {
+}
+
+
+def r01_9(run, model, only_fns=None, rid="R01.9", floor=160):
+    run.rule(rid, "a rewriting pass rewrites every sub-term: where an arm of a traversal rebuilds the variant it matched, each field that "
+                  "carries sub-terms is filled from a call of the traversal (the function itself, a local closure or a sibling function "
+                  "that calls it; followed through lets, tuple lets and continuation parameters) - never from the matched field as it came in")
+    trs = P.discover(model, min_cover=3, include_pprint=False)
+    n = 0
+    for t in trs:
+        if t.enum_name == "Ty":
+            continue
+        if only_fns is not None and not any(re.search(o, t.fn.qual) for o in only_fns):
+            continue
+        ret = (t.fn.node.get("ret") or "").replace(" ", "")
+        if not any(re.search(r"(?<![A-Za-z0-9_])" + en + r"(?![A-Za-z0-9_])", ret) for en in P.IR_ENUMS | {"Block"}):
+            continue
+        # the traversal family: the function, the functions of its file from which it is reachable, and the functions of its file
+        # it calls that themselves return IR terms (the walkers of a child enum)
+        peers = [g for g in model.fns(t.fn.file) if g.body is not None]
+        rec = {t.fn.name}
+        grew = True
+        while grew:
+            grew = False
+            for g in peers:
+                if g.name not in rec and any(True for _ in S.calls(g.body, *rec)):
+                    rec.add(g.name)
+                    grew = True
+        ir_ret = {g.name for g in peers if any(re.search(r"(?<![A-Za-z0-9_])" + en + r"(?![A-Za-z0-9_])", (g.node.get("ret") or "")) for en in P.IR_ENUMS | {"Block"})}
+        rec |= {S.callee_name(c) for c in S.walk(t.fn.body) if c["k"] in ("Call", "MethodCall") and S.callee_name(c) in ir_ret}
+        for l in S.find(t.fn.body, "Local"):
+            if l["pat"]["k"] == "PIdent" and l.get("init") is not None and l["init"]["k"] == "Closure" and any(True for _ in S.calls(l["init"], *rec)):
+                rec.add(l["pat"]["name"])
+        variants = {v["name"]: v for v in t.enum["variants"]}
+        for vname, lst in sorted(t.covered.items()):
+            v = variants.get(vname)
+            if v is None:
+                continue
+            kids = P.child_fields(v, t.enum["name"], extra=("ImmExpr", "AExpr", "CExpr"))
+            if not kids:
+                continue
+            for arm, alt in lst:
+                par = None
+
+                def binders(i):
+                    nonlocal par
+                    out = []
+                    for l in S.walk(arm["body"]):
+                        if l["k"] == "Local" and l.get("init") is not None and i in S.pat_bindings(l["pat"]):
+                            out.append(l["init"])
+                        elif l["k"] == "Let" and i in S.pat_bindings(l["pat"]):
+                            out.append(l["expr"])
+                        elif l["k"] == "For" and i in S.pat_bindings(l["pat"]):
+                            out.append(l["iter"])
+                        elif l["k"] == "MethodCall" and l["method"] in ("push", "extend", "insert", "push_back") and S.is_path(l["recv"], i):
+                            out.extend(l["args"])
+                        elif l["k"] == "Closure" and any(i in S.pat_bindings(p) for p in l["inputs"]):
+                            if par is None:
+                                par = S.Parents(arm["body"])
+                            # the calls the continuation is handed to (Box::new(..) wrappers included), without the continuation's own body
+                            for call in (a for a in par.ancestors(l) if a["k"] in ("Call", "MethodCall")):
+                                rest = [x for x in ([call.get("recv")] if call["k"] == "MethodCall" else []) + [a for a in call["args"] if not S.span_contains(a["sp"], l["sp"])] if x is not None]
+                                out.append({"k": "Tuple", "elems": rest, "sp": call["sp"], "_callee": S.callee_name(call)})
+                    return out
+
+                def through(x, depth=0):
+                    if x.get("_callee") in rec:
+                        return True
+                    for c in S.walk(x):
+                        if c["k"] in ("Call", "MethodCall") and S.callee_name(c) in rec:
+                            return True
+                        if c["k"] == "Path" and len(c["segs"]) == 1 and c["segs"][0] in rec:
+                            return True
+                    if depth < 3:
+                        for i in S.idents(x):
+                            for b in binders(i):
+                                if through(b, depth + 1):
+                                    return True
+                    return False
+
+                for st in S.find(arm["body"], "Struct"):
+                    if st["segs"][-1] != vname:
+                        continue
+                    if len(st["segs"]) >= 2 and not re.search(r"(?<![A-Za-z0-9_])" + st["segs"][-2] + r"(?![A-Za-z0-9_])", ret):
+                        continue  # the matched node put together again to be handed on whole, not a node of the pass's output
+                    for fl in st["fields"]:
+                        if fl["name"] not in kids:
+                            continue
+                        n += 1
+                        ok = through(fl["expr"])
+                        led = RECUR_LEDGER.get((t.fn.name, vname, fl["name"]))
+                        run.ob(rid, f"{t.fn.name}|{vname}.{fl['name']} is filled from the traversal", ok or led is not None, site(t.fn.file, fl["expr"]["sp"]),
+                               f"{t.enum_name}::{vname}.{fl['name']} = `{S.norm_ws(run.facts.text(t.fn.file, fl['expr']['sp']))[:60]}`; traversal functions: {sorted(rec)}" +
+                               (f"; ledger: {led}" if led else ""),
+                               witness=f"whatever the pass does is not done inside `{fl['name']}` of a {vname} node: the sub-term reaches the next stage unrewritten")
+    run.floor("rebuilt sub-term fields examined", n, floor)
+
+
 def run(run, model):
     run.try_rule(r01_6, model)
     trs = P.discover(model, include_pprint=True)
@@ -360,6 +460,7 @@ def run(run, model):
     run.try_rule(r01_2, model, trs)
     run.try_rule(r01_3, model, trs)
     run.try_rule(r01_4, model, trs)
+    run.try_rule(r01_9, model)
     run.try_rule(r01_1, model)
     run.try_rule(r01_5, model)
     from rules import c11
